@@ -188,10 +188,17 @@ impl RawConn {
         } else {
             return Err(std::io::Error::new(std::io::ErrorKind::InvalidInput, "bad address"));
         };
-        Ok(RawConn { s, rbuf: Vec::new(), eof: false })
+        let mut c = RawConn { s, rbuf: Vec::new(), eof: false };
+        // no write of the monitors may block for ever: a peer that stops reading (a spinning or
+        // deadlocked server) makes the write fail after 20 s, which every caller treats like a
+        // connection that went away
+        c.set_write_timeout(Duration::from_secs(20));
+        Ok(c)
     }
     pub fn from_unix(u: UnixStream) -> RawConn {
-        RawConn { s: Sock::Unix(u), rbuf: Vec::new(), eof: false }
+        let mut c = RawConn { s: Sock::Unix(u), rbuf: Vec::new(), eof: false };
+        c.set_write_timeout(Duration::from_secs(20));
+        c
     }
     pub fn write_all(&mut self, b: &[u8]) -> std::io::Result<()> {
         match &mut self.s {
